@@ -304,6 +304,72 @@ class SimLock(SimRLock):
         return self.owner is None
 
 
+class _Waiter:
+    def __init__(self):
+        self.notified = False
+
+    def free_for(self, w):
+        return self.notified
+
+
+class SimCondition:
+    """Cooperative condition variable for library code (a monitor built
+    with threading.Condition must not park a worker on a real lock)."""
+
+    def __init__(self, lock=None):
+        self._lock = lock if lock is not None else SimRLock()
+        self._waiters = []
+        self.acquire = self._lock.acquire
+        self.release = self._lock.release
+
+    def __enter__(self):
+        return self._lock.__enter__()
+
+    def __exit__(self, *a):
+        return self._lock.__exit__(*a)
+
+    def wait(self, timeout=None):
+        s, me = SimRLock._me()
+        lk = self._lock
+        if lk.owner != me:
+            raise RuntimeError('cannot wait on un-acquired lock')
+        if s is None:
+            raise core.HarnessError(
+                'cooperative condition waited on outside a simulated run')
+        depth, lk.count, lk.owner = lk.count, 0, None
+        w = _Waiter()
+        self._waiters.append(w)
+        s.blocked[me] = w
+        s.lock_handovers += 1
+        try:
+            s._handover(me, 'cond')
+        finally:
+            s.blocked[me] = None
+            if w in self._waiters:
+                self._waiters.remove(w)
+        lk.acquire()
+        lk.count = depth
+        return True
+
+    def wait_for(self, predicate, timeout=None):
+        r = predicate()
+        while not r:
+            self.wait(timeout)
+            r = predicate()
+        return r
+
+    def notify(self, n=1):
+        for w in self._waiters[:n]:
+            w.notified = True
+        del self._waiters[:n]
+
+    def notify_all(self):
+        self.notify(len(self._waiters))
+
+    notifyAll = notify_all
+
+
+_RealCondition = threading.Condition
 _installed = False
 
 
@@ -326,5 +392,13 @@ def install_locks():
             return SimLock()
         return _RealLock(*a, **k)
 
+    def cond_factory(lock=None):
+        if isinstance(lock, SimRLock) or (
+                lock is None and
+                sys._getframe(1).f_code.co_filename.startswith(lib)):
+            return SimCondition(lock)
+        return _RealCondition(lock)
+
     threading.RLock = rlock_factory
     threading.Lock = lock_factory
+    threading.Condition = cond_factory
